@@ -62,3 +62,26 @@ def type_is(v, t):
 
 def exists_in(coll, f):
     return coll is not None and any(f(x) for x in coll)
+
+
+def list_replace(lst, i, v):
+    lst = list(lst)
+    return lst[:i] + [v] + lst[i + 1:]
+
+
+def list_remove_at(lst, i):
+    lst = list(lst)
+    return lst[:i] + lst[i + 1:]
+
+
+def same_items(a, b):
+    a, b = list(a), list(b)
+    return len(a) == len(b) and all(x is y or x == y for x, y in zip(a, b))
+
+
+def removed_first(new, old, pred):
+    old = list(old)
+    for k, x in enumerate(old):
+        if pred(x):
+            return same_items(new, old[:k] + old[k + 1:])
+    return False
